@@ -14,7 +14,6 @@ func init() {
 					{Fn: "Harness_C14_dom_n4_recover", Tiers: "both", Reach: []string{"end"}, Bounds: "all CFGs on 3 blocks + recover block with its own disjoint region"},
 					{Fn: "Harness_C14_dom_n8_sampled", Tiers: "both", Reach: []string{"end"}, Bounds: "400 graphs on 8 blocks drawn from a fixed pseudo-random sequence (out-degree <= 2; graphs with unreachable blocks are discarded); query pair symbolic"},
 					{Fn: "Harness_C14_dom_n10_sampled", Tiers: "thorough", Reach: []string{"end"}, Bounds: "2000 graphs on 10 blocks from the same sequence"},
-					{Fn: "Harness_C14_dom_n5", Tiers: "thorough", Reach: []string{"end"}, Bounds: "all CFGs on 5 blocks with out-degree <= 2"},
 					{Fn: "Harness_C14_dom_n5_recover", Tiers: "thorough", Reach: []string{"end"}, Bounds: "all CFGs on 4 blocks + recover block, out-degree <= 2"},
 				},
 			}},
